@@ -345,7 +345,7 @@ Section DcInstance.
      nobody else references (and is not do_not_copy); the class is copied normally *)
   Definition FI (h : heap_t) (l : loc) (cl : cid) (d : list (nat * val)) (k : cls) : Prop :=
     nth_error h l = Some (OInst cl d) /\ lookup_cls ct cl = Some k /\ c_dnc k = false /\
-    c_post_copy k = None /\ ref_entries_ok k h d.
+    oqfn (c_post_copy k) /\ ref_entries_ok k h d.
 
   (* the cells below b keep their content and their reference counts *)
   Definition frame_rel (b : nat) (h0 h : heap_t) : Prop :=
@@ -675,8 +675,32 @@ Section DcInstance2.
                                   FI ct h new0 cl d' k /\ map fst d' = map fst d /\ refcount h new0 = 0)
                    (CE ct h0)).
     { eapply T_bind; [apply (T_foldM_split STEP (CI ct h0 new cl k) (CE ct h0) d Step [])|].
-      intros memo'. rewrite Hpc.
-      eapply T_bind with (Q := fun _ h => CI ct h0 new cl k d memo' h); [apply T_ret; intros h H; exact H|].
+      intros memo'.
+      eapply T_bind with (Q := fun _ h => CI ct h0 new cl k d memo' h).
+      { (* __post_copy__: a quiet callback *)
+        destruct (c_post_copy k) as [g|]; [|apply T_ret; intros h H; exact H].
+        set (Fc := fun h : heap_t =>
+                     frame_rel (length h0) h0 h /\
+                     (exists done', nth_error h new = Some (OInst cl done') /\ map fst done' = map fst d /\
+                                    ref_entries_ok k h done') /\
+                     refcount h new = 0 /\
+                     (forall lx, assoc lx memo' <> None -> exists a, In (a, VRef lx) d)).
+        assert (SFc : astable Fc).
+        { intros h o S Nr ((FA & FB & FC) & (done' & Nn & Ek & Re) & Zn & Hm). split; [|split; [|split; [|exact Hm]]].
+          - split; [|split].
+            + intros c Hc. rewrite nth_error_app1 by lia. auto.
+            + intros c Hc. rewrite refcount_app. simpl. rewrite (norefs_orefs o c Nr). rewrite <- FB by auto. lia.
+            + rewrite app_length. lia.
+          - exists done'. split; [rewrite nth_error_app1; auto; apply nth_error_Some; congruence|]. split; auto.
+            intros a1 l1 Hi1. destruct (Re a1 l1 Hi1) as ((o1 & No1 & Q1) & R1 & Dn1).
+            split; [exists o1; rewrite nth_error_app1; auto; apply nth_error_Some; congruence|]. split; auto.
+            rewrite refcount_app. simpl. rewrite (norefs_orefs o l1 Nr). lia.
+          - rewrite refcount_app. simpl. rewrite (norefs_orefs o new Nr). lia. }
+        eapply T_bind with (Q := fun _ h => CI ct h0 new cl k d memo' h); [|intros ?; apply T_ret; auto].
+        eapply T_conseq; [apply (apply_fn_quiet ct Hflat g VNone Fc Hpc SFc)| | |].
+        - intros h (FR & I & Dd & Zn & Hm). split; [exact I|]. split; auto.
+        - intros r h [[I (FR & Dd & Zn & Hm)] _]. split; auto.
+        - intros h [I (FR & _)]. split; auto. }
       intros ?. apply T_ret.
       intros h (FR & I & (d' & Nn & Ek & Re) & Zn & _). exists new, d'. split; auto. split; auto. split; auto.
       split; auto. split; [|split; auto]. split; auto. }
